@@ -606,6 +606,18 @@ impl LocalPeerService {
         Ok(())
     }
 
+    /// verification entry point: the private handler of local events of one connection, unchanged
+    #[cfg(feature = "verif")]
+    pub async fn verif_process_local_event(
+        msg: LocalEvent,
+        remote_key: &Arc<Mutex<Vec<u8>>>,
+        event_sender: &Sender<RemoteEvent>,
+        remote_rooms: &HashSet<Uid>,
+        inbound_query_service: &InboundQueryService,
+    ) -> Result<(), crate::Error> {
+        Self::process_local_event(msg, remote_key, event_sender, remote_rooms, inbound_query_service).await
+    }
+
     /// verification entry point: the private room synchronisation routine, unchanged
     #[cfg(feature = "verif")]
     pub async fn verif_synchronise_room(
